@@ -12,7 +12,7 @@ def run(ctx):
     ex = vlib.extract(ctx)
     d = vlib.drive(ctx, exe, 'registry')
     tf = os.path.join(d, 'registry.ndjson')
-    census = dict(ev='Census', names=[r['name'] for r in ex['registrations']], lintDirs=ex['lintDirs'], imported=ex['imported'],
+    census = dict(ev='Census', rawNames=[n for n in (ex.get('rawNames') or []) if n], names=[r['name'] for r in ex['registrations']], lintDirs=ex['lintDirs'], imported=ex['imported'],
                   lintTypes=ex['lintTypes'], registeredTypes=ex['registeredTypes'])
     with open(tf, 'a') as fh:
         fh.write(json.dumps(census) + '\n')
